@@ -10,46 +10,66 @@ Local Open Scope R_scope.
 #[local] Remove Hints NumQ NumZ : typeclass_instances.
 
 (* ---------------------------------------------------------------------------------------------
-   Cholesky.  Contract of the oracles (n x n systems):
+   Cholesky (source after the repair /repo 50a1217: forward() asserts no NaN in L AND info = 0).
+   Contract of the oracles (n x n systems):
      chol_ex_contract n cholesky_ex   : A SPD  -> cholesky_ex up A = (L, 0), L triangular with non-zero
                                          diagonal, NaN-free, L L^T = A (U^T U = A for upper);
                                         A not SPD -> info <> 0   (nothing is promised about L)
      chol_solve_contract n solve      : for such a triangular L, solve up b L = X with (L L^T) X = b.  *)
-(* positive clause: the solution is returned for every SPD A (any n, any number of right-hand sides) *)
-Theorem C10_cholesky_spd : forall n cholesky_ex cholesky_solve,
+(* MAIN: returns the solution for every SPD A and raises for every A that is not SPD (any n, any number
+   of right-hand sides, lower / upper) *)
+Theorem C10_cholesky_wrapper : forall n cholesky_ex cholesky_solve,
   chol_ex_contract n cholesky_ex -> chol_solve_contract n cholesky_solve ->
-  forall up (A b : mat (F:=R)) k, SPD n A -> wf_mat n k b ->
-  exists X, Cholesky cholesky_ex cholesky_solve up A b = Some (inject X) /\ wf_mat n k X /\ mm A X = b.
-Proof. exact cholesky_wrapper_spd. Qed.
-
-(* failure clause "raises instead of returning a wrong vector when A is not positive definite":
-   REFUTED on the faithful model.  There are oracles satisfying the contract and a matrix A that is not
-   positive definite, with info <> 0 reported, for which forward() returns a vector X with A X <> b
-   (witness: 1 x 1, A = [[-1]], b = [[1]], returns [[1]]).  [info] is bound and never read: *)
-Theorem C10_cholesky_raises_refuted :
-  exists (n : nat) cholesky_ex cholesky_solve, chol_ex_contract n cholesky_ex /\ chol_solve_contract n cholesky_solve /\
-    exists (A b X : mat (F:=R)), wf_mat n n A /\ wf_mat n 1 b /\ ~ SPD n A /\ snd (cholesky_ex false A) <> 0%Z /\
-      Cholesky cholesky_ex cholesky_solve false A b = Some (inject X) /\ mm A X <> b.
-Proof. exact cholesky_raise_refuted. Qed.
-(* the recorded finding: A = [[1,2],[2,1]], b = [1,1].  LAPACK answers L = [[1,0],[2,-3]], info = 2
-   (replayed on the implementation by the check); an oracle answering this on the indefinite A still
-   satisfies the contract, and the wrapper returns a vector that does not solve A x = b. *)
-Theorem C10_cholesky_raises_refuted_witness : forall cholesky_ex cholesky_solve,
-  chol_ex_contract 2 cholesky_ex -> chol_solve_contract 2 cholesky_solve ->
-  exists cholesky_ex', chol_ex_contract 2 cholesky_ex' /\
-    cholesky_ex' false Awit = (inject Lwit, 2%Z) /\ ~ SPD 2 Awit /\
-    exists X, Cholesky cholesky_ex' cholesky_solve false Awit bwit = Some (inject X) /\ mm Awit X <> bwit.
-Proof. exact cholesky_raise_refuted_witness. Qed.
-(* what the wrapper does check, and that the status is ignored *)
+  forall up (A b : mat (F:=R)) k, wf_mat n n A -> wf_mat n k b ->
+  (SPD n A -> exists X, Cholesky cholesky_ex cholesky_solve up A b = Some (inject X) /\ wf_mat n k X /\ mm A X = b) /\
+  (~ SPD n A -> Cholesky cholesky_ex cholesky_solve up A b = None).
+Proof. exact cholesky_wrapper. Qed.
+(* whenever forward() returns at all, the factorisation reported success; NaN in the factor raises *)
+Theorem C10_cholesky_returns_only_on_success : forall cholesky_ex cholesky_solve up (A b : mat (F:=R)) X,
+  Cholesky cholesky_ex cholesky_solve up A b = Some X ->
+  snd (cholesky_ex up A) = 0%Z /\ has_nan (fst (cholesky_ex up A)) = false.
+Proof. exact cholesky_returns_only_on_success. Qed.
 Theorem C10_cholesky_nan_raises : forall cholesky_ex cholesky_solve up (A b : mat (F:=R)),
   has_nan (fst (cholesky_ex up A)) = true -> Cholesky cholesky_ex cholesky_solve up A b = None.
 Proof. exact cholesky_wrapper_nan. Qed.
-Theorem C10_cholesky_ignores_info : forall (ce1 ce2 : bool -> mat (F:=R) -> xmat (F:=R) * Z) cholesky_solve up (A b : mat (F:=R)),
-  fst (ce1 up A) = fst (ce2 up A) -> Cholesky ce1 cholesky_solve up A b = Cholesky ce2 cholesky_solve up A b.
-Proof. exact cholesky_ignores_info. Qed.
+(* batched: all SPD -> every item solved; one member not SPD -> the whole call raises *)
+Theorem C10_cholesky_batch_spd : forall n k cholesky_ex cholesky_solve,
+  chol_ex_contract n cholesky_ex -> chol_solve_contract n cholesky_solve ->
+  forall up (As bs : list (mat (F:=R))), Forall (SPD n) As -> Forall (wf_mat n k) bs -> length As = length bs ->
+  exists Xs, Cholesky_batch cholesky_ex cholesky_solve up As bs = Some (map inject Xs) /\ length Xs = length As /\
+    forall i, (i < length As)%nat -> mm (nth i As []) (nth i Xs []) = nth i bs [].
+Proof. exact cholesky_batch_spd. Qed.
+Theorem C10_cholesky_batch_raises : forall n cholesky_ex cholesky_solve,
+  chol_ex_contract n cholesky_ex ->
+  forall up (As bs : list (mat (F:=R))), Forall (wf_mat n n) As -> Exists (fun A => ~ SPD n A) As ->
+  Cholesky_batch cholesky_ex cholesky_solve up As bs = None.
+Proof. intros n ce cs H. exact (cholesky_batch_raises n ce cs H). Qed.
 (* the contracts are satisfiable (1 x 1 systems: sqrt / division) *)
 Example C10_cholesky_contract_satisfiable : chol_ex_contract 1 chol1 /\ chol_solve_contract 1 solve1.
 Proof. exact (conj chol1_contract solve1_contract). Qed.
+
+(* HISTORY (source before the repair = Cholesky_old: only NaN was asserted, [info] bound and never
+   read).  The failure clause was refuted on that faithful model; the witnesses were replayed on the
+   implementation and recorded, now `fixed:` in known_findings.txt. *)
+Theorem C10_cholesky_old_raises_refuted :
+  exists (n : nat) cholesky_ex cholesky_solve, chol_ex_contract n cholesky_ex /\ chol_solve_contract n cholesky_solve /\
+    exists (A b X : mat (F:=R)), wf_mat n n A /\ wf_mat n 1 b /\ ~ SPD n A /\ snd (cholesky_ex false A) <> 0%Z /\
+      Cholesky_old cholesky_ex cholesky_solve false A b = Some (inject X) /\ mm A X <> b.
+Proof. exact cholesky_raise_refuted. Qed.
+Theorem C10_cholesky_old_raises_refuted_witness : forall cholesky_ex cholesky_solve,
+  chol_ex_contract 2 cholesky_ex -> chol_solve_contract 2 cholesky_solve ->
+  exists cholesky_ex', chol_ex_contract 2 cholesky_ex' /\
+    cholesky_ex' false Awit = (inject Lwit, 2%Z) /\ ~ SPD 2 Awit /\
+    exists X, Cholesky_old cholesky_ex' cholesky_solve false Awit bwit = Some (inject X) /\ mm Awit X <> bwit.
+Proof. exact cholesky_raise_refuted_witness. Qed.
+Theorem C10_cholesky_old_ignores_info : forall (ce1 ce2 : bool -> mat (F:=R) -> xmat (F:=R) * Z) cholesky_solve up (A b : mat (F:=R)),
+  fst (ce1 up A) = fst (ce2 up A) -> Cholesky_old ce1 cholesky_solve up A b = Cholesky_old ce2 cholesky_solve up A b.
+Proof. exact cholesky_old_ignores_info. Qed.
+(* the repair changes nothing where the factorisation succeeds *)
+Theorem C10_cholesky_old_same_on_success : forall cholesky_ex cholesky_solve up (A b : mat (F:=R)),
+  snd (cholesky_ex up A) = 0%Z ->
+  Cholesky cholesky_ex cholesky_solve up A b = Cholesky_old cholesky_ex cholesky_solve up A b.
+Proof. exact cholesky_old_same_on_success. Qed.
 
 (* ---------------------------------------------------------------------------------------------
    PINV.  Contract: pinv c A is a Moore-Penrose pseudo-inverse P of A (A P A = A, P A P = P, A P and
@@ -100,12 +120,6 @@ Theorem C10_lstsq_batch : forall m n k (lstsq : lstsq_cfg (F:=R) -> mat (F:=R) -
     forall i, (i < length As)%nat -> forall j, (j < ncols (nth i bs []))%nat ->
       is_lsq n (nth i As []) (col j (nth i bs [])) (col j (nth i Xs [])).
 Proof. exact lstsq_batch. Qed.
-Theorem C10_cholesky_batch_spd : forall n k cholesky_ex cholesky_solve,
-  chol_ex_contract n cholesky_ex -> chol_solve_contract n cholesky_solve ->
-  forall up (As bs : list (mat (F:=R))), Forall (SPD n) As -> Forall (wf_mat n k) bs -> length As = length bs ->
-  exists Xs, Cholesky_batch cholesky_ex cholesky_solve up As bs = Some (map inject Xs) /\ length Xs = length As /\
-    forall i, (i < length As)%nat -> mm (nth i As []) (nth i Xs []) = nth i bs [].
-Proof. exact cholesky_batch_spd. Qed.
 
 (* ---------------------------------------------------------------------------------------------
    CG (norm2 v = sqrt (v . v), the norm the code uses).  A any n x n list-of-rows matrix (symmetry /
@@ -199,11 +213,13 @@ Theorem C10_dispatch_table : forall l1 l2,
   /\ (length (fst (dispatch 3 l1 l2)) <= 2)%nat.
 Proof. exact dispatch_table. Qed.
 
-Print Assumptions C10_cholesky_spd. Print Assumptions C10_cholesky_raises_refuted.
-Print Assumptions C10_cholesky_raises_refuted_witness. Print Assumptions C10_cholesky_nan_raises.
-Print Assumptions C10_cholesky_ignores_info. Print Assumptions C10_cholesky_contract_satisfiable.
+Print Assumptions C10_cholesky_wrapper. Print Assumptions C10_cholesky_returns_only_on_success.
+Print Assumptions C10_cholesky_nan_raises. Print Assumptions C10_cholesky_batch_spd. Print Assumptions C10_cholesky_batch_raises.
+Print Assumptions C10_cholesky_contract_satisfiable. Print Assumptions C10_cholesky_old_raises_refuted.
+Print Assumptions C10_cholesky_old_raises_refuted_witness. Print Assumptions C10_cholesky_old_ignores_info.
+Print Assumptions C10_cholesky_old_same_on_success.
 Print Assumptions C10_pinv_wrapper. Print Assumptions C10_pinv_wrapper_penrose. Print Assumptions C10_lstsq_wrapper. Print Assumptions C10_lstsq_nan_raises.
-Print Assumptions C10_pinv_batch_item. Print Assumptions C10_lstsq_batch. Print Assumptions C10_cholesky_batch_spd.
+Print Assumptions C10_pinv_batch_item. Print Assumptions C10_lstsq_batch.
 Print Assumptions C10_cg_residual_inv. Print Assumptions C10_cg_returns. Print Assumptions C10_cg_exit_sound.
 Print Assumptions C10_cg_zero_rhs. Print Assumptions C10_cg_sq_equiv. Print Assumptions C10_cg_values_spec.
 Print Assumptions C10_merge_join_correct. Print Assumptions C10_bsr_matmul_dense.
